@@ -127,6 +127,28 @@ def must_fail_twin(r, name, run_twin):
         r.add(name, UNDECIDED, "twin", time.time() - t0, "perturbed contract still verifies: unit is vacuous", kind="vacuity")
 
 
+def _register_head(rel, qualname, node, ordinal):
+    try:
+        import re as _re
+        from .. import core as _core
+        if getattr(_core.PENDING, "heads", None) is None:
+            return
+        src_b = open(os.path.join(REPO, rel), "rb").read()
+        def _t(n_):
+            if not n_ or not isinstance(n_, dict) or not n_.get("kind"):
+                return ""
+            b_, e_ = A.src_range_text(n_)
+            return _re.sub(r"\s+", "", src_b[b_:e_].decode("latin1")) if b_ is not None and e_ else ""
+        if node.get("kind") == "ForStmt":
+            head = {"init": _t(node["inner"][0]), "cond": _t(node["inner"][2]), "inc": _t(node["inner"][3])}
+        else:
+            head = {"init": "", "cond": "", "inc": ""}
+        head.update(kind=node.get("kind"), function=qualname, ordinal=ordinal, rel=rel)
+        _core.PENDING.heads.append(head)
+    except Exception:
+        pass
+
+
 def run_function(rel, qualname, modes=None, default="havoc", ctx=None, params=None, pre=None, find_kw=None):
     """Execute a function with per-loop modes: 'iter' (iteration contract: body run once for an arbitrary
     induction value on an arbitrary state; the results are stashed, execution continues after the loop with
@@ -144,6 +166,7 @@ def run_function(rel, qualname, modes=None, default="havoc", ctx=None, params=No
         mode = modes.get(ordinal, default)
         info["entry"].setdefault(ordinal, []).append(st.clone())
         if mode == "iter":
+            _register_head(rel, qualname, node, ordinal)
             res = ex.iterate_loop(node, st.clone())
             info["iter"].setdefault(ordinal, []).extend(res)
             return ex.havoc_loop(node, st)
@@ -206,10 +229,14 @@ def run_loop_isolated(rel, qualname, ordinal, ctx=None, find_kw=None, inner_mode
     node = loops[ordinal]
     inner_modes = inner_modes or {}
     inner_entries = {}
+    inner_iters = {}
     def loop(ex, st, n, o):
         inner_entries.setdefault(o, []).append(st.clone())      # states in which an inner loop is reached (for reachability obligations)
         if inner_modes.get(o) == "unroll":
             return ex.unroll(n, st)
+        if inner_modes.get(o) == "iter" or inner_modes.get("*") == "iter":
+            # iteration contract of the inner loop in the context reached (the facts established outside it are kept)
+            inner_iters.setdefault(o, []).extend(ex.iterate_loop(n, st.clone()))
         return ex.havoc_loop(n, st)
     ctx.loop = loop
     ex = Exec(ctx)
@@ -242,7 +269,25 @@ def run_loop_isolated(rel, qualname, ordinal, ctx=None, find_kw=None, inner_mode
     for x in A.walk(node):
         if x.get("kind") == "VarDecl" and "id" in x and "name" in x:
             names[x["name"]] = x["id"]           # declarations inside the loop shadow same-named ones elsewhere in the function
-    info = {"names": names, "node": node, "nloops": len(loops), "inner_entries": inner_entries}
+    info = {"names": names, "node": node, "nloops": len(loops), "inner_entries": inner_entries, "inner_iters": inner_iters}
+    try:
+        import re as _re
+        from .. import core as _core
+        src_b = open(os.path.join(REPO, rel), "rb").read()
+        def _t(n_):
+            if not n_ or not isinstance(n_, dict) or not n_.get("kind"):
+                return ""
+            b_, e_ = A.src_range_text(n_)
+            return _re.sub(r"\s+", "", src_b[b_:e_].decode("latin1")) if b_ is not None and e_ else ""
+        if node.get("kind") == "ForStmt":
+            head = {"init": _t(node["inner"][0]), "cond": _t(node["inner"][2]), "inc": _t(node["inner"][3])}
+        else:
+            head = {"init": "", "cond": "", "inc": ""}
+        head.update(kind=node.get("kind"), function=qualname, ordinal=ordinal, rel=rel)
+        if getattr(_core.PENDING, "heads", None) is not None:
+            _core.PENDING.heads.append(head)
+    except Exception:
+        pass
     res = ex.iterate_loop(node, st, prepare=(lambda ex_, s_: prepare(ex_, s_, info)) if prepare is not None else None)
     return fn, ex, res, info
 
